@@ -610,10 +610,14 @@ class MessageManager(interfaces.TokenInterface, interfaces.MessageManager):
             and message.code.is_response()
         ):
             key = (message.remote, message.mid)
+            tuning = message.transport_tuning
+            if isinstance(tuning, type):
+                # Classes are accepted in place of instances, but have no
+                # computed properties
+                tuning = tuning()
             handle = self.loop.call_later(
                 # NON_LIFETIME of RFC 7252
-                message.transport_tuning.MAX_TRANSMIT_SPAN
-                + message.transport_tuning.MAX_LATENCY,
+                tuning.MAX_TRANSMIT_SPAN + tuning.MAX_LATENCY,
                 functools.partial(self._recent_nons.pop, key, None),
             )
             self._recent_nons[key] = (messageerror_monitor, handle)
